@@ -152,6 +152,16 @@ class _RsaModule(object):
             idx = OS.rng.rsa_counter
             OS.rng.rsa_counter += 1
             return pool_private_key(key_size, idx)
+        if key_size >= 512 and public_exponent == 65537:
+            # a size the pool does not hold (a corrupted or boundary
+            # length that is still a legal RSA size): real generation is
+            # not repeatable and, for large sizes, takes minutes; a pool
+            # key of the nearest size stands in (nothing in the checks
+            # depends on the modulus size of a generated key)
+            self.stub_calls += 1
+            idx = OS.rng.rsa_counter
+            OS.rng.rsa_counter += 1
+            return pool_private_key(2048 if key_size >= 1536 else 1024, idx)
         return self._real.generate_private_key(
             public_exponent=public_exponent, key_size=key_size)
 
